@@ -58,6 +58,7 @@ type Contract struct {
 	Ats        []AtRule // assertions attached to call sites / effect classes
 	AssumedEns []Clause // postconditions assumed at call sites but not verified on the body (typing facts about dependencies' output)
 	Invariants []Clause // closure invariants: hold before and after every run of a function literal
+	AssumedRefine map[string]string // `refines-assumed <clause>: <reason>`: a clause of the implemented interface method that is assumed of this implementation (object invariant), not proved on its body
 	Skolems    []*SpecFun // `skolem f(S1, S2) R`: a function symbol that is fresh at every call site (existential witness)
 }
 
@@ -296,6 +297,18 @@ func (cs *ContractSet) parseContractLines(file, pkgPath string, lines []string, 
 				cur.Assigns = append(cur.Assigns, e)
 				cur.AssignsSrc = append(cur.AssignsSrc, part)
 			}
+		case "refines-assumed":
+			if cur == nil {
+				return errf(i, "refines-assumed outside func")
+			}
+			lab, why, ok := strings.Cut(rest, ":")
+			if !ok || strings.TrimSpace(why) == "" {
+				return errf(i, "refines-assumed needs `<clause label>: <reason>`")
+			}
+			if cur.AssumedRefine == nil {
+				cur.AssumedRefine = map[string]string{}
+			}
+			cur.AssumedRefine[strings.TrimSpace(lab)] = strings.TrimSpace(why)
 		case "decreases":
 			if cur == nil {
 				return errf(i, "decreases outside func")
